@@ -11,10 +11,11 @@ import _sys  # noqa: E402
 ASSUMPTIONS = [
     "Setup is modelled as OSetup (old connection closed, setup mutex held) / OSetupEnd (old connection Closed, or kill timeout)",
     "a connection reaches Closed only after its Terminate (broker/client.go cleanup order, C12_will / C14_lifecycle); a *Client calls Setup once",
-    "the uniqueness invariant is stated (and proved) for histories without kill timeout and without backend Close: Terminate removes the "
-    "active-clients entry by client id, so a newcomer whose Setup failed removes the old connection's entry "
-    "(C13_unique_state_kill_timeout_refuted / _close_refuted; reproduced on the real backend); the invariant is also evaluated on every "
-    "observed state of the implementation in such histories",
+    "the uniqueness invariant (client id -> active connection is a partial function consistent with the sessions) is proved for ALL "
+    "histories of the backend model, kill timeouts, Setups refused while the backend closes, and backend Close included (C13_unique_state; "
+    "Terminate releases a session / an active-clients entry only if they are the terminating connection's own), and is evaluated on every "
+    "observed state of the implementation; what stays open is the liveness of a takeover whose old connection is blocked in a carrier "
+    "write (KF-C13-blocked-write), which is not a state property of the backend model",
     "sync.Mutex (global and setup mutex of MemoryBackend) makes each backend method an atomic step; whole-broker scenarios sample schedules; "
     "'no goroutine blocked' and the real-time kill timeout are runtime claims (watchdogs), not theorems",
 ]
